@@ -26,7 +26,8 @@ RULE = ("two peptides with one cysteine each (cysteine at N-terminal, internal o
         "limit or a real third sulfur inside it (then only the 'no silent asymmetric bridge' clause applies); six "
         "force fields; debump/opt on and off. Non-trivial: |d - 2.5| <= 0.1 or swapped order or same chain or decoy; "
         "distinct = (side of the limit, distance class, chain scheme, order, cys positions, decoy, force field)"
-        ' Round-2 additions: cysteines entered under the state names CYX / CYM; real disulfides in context (long stretches of the local proteins) under random rigid motions.')
+        ' Round-2 additions: cysteines entered under the state names CYX / CYM; real disulfides in context (long stretches of the local proteins) under random rigid motions.'
+        ' Round-3/4 additions: bridged cysteines whose SG (or CB+SG) is missing from the input and is rebuilt by repair (judged on final coordinates under --nodebump).')
 ASSUMPTIONS = ["ground truth distances are recomputed from the 3-decimal coordinates in the file and cases within "
                "1e-6 of the limit are discarded"]
 MIN = {"quick": {"placements": 250, "bridged_pairs_checked": 90, "free_pairs_checked": 90, "near_limit": 100, "real_structures": 6},
